@@ -94,6 +94,56 @@ def rule_override(ctx, _flow) -> RuleResult:
         v, fl = _flow(ctx, fn)
         kw = fn.node.args.kwarg.arg if fn.node.args.kwarg else None
         sites = []  # (attribute, value expr, node, what)
+        label = f"**{kw}" if kw else "**<overrides>"
+        seen_dicts: set = set()
+
+        def entries(e, depth=0, fl=fl, v=v, sites=sites, seen_dicts=seen_dicts, label=label):
+            """the (attribute, value) pairs a mapping expression carries: the entries of the dict displays it may be (locals and record
+            fields followed), plus what is stored into those very dict objects elsewhere (d[k] = v, d.update(..), d.setdefault(k, v))"""
+            if depth > 5:
+                return
+            for o in fl.origins(e):
+                if id(o) in seen_dicts:
+                    continue
+                seen_dicts.add(id(o))
+                if isinstance(o, ast.Dict):
+                    for key, val in zip(o.keys, o.values):
+                        if key is None:
+                            entries(val, depth + 1)
+                        elif isinstance(key, ast.Constant) and key.value in names:
+                            sites.append((key.value, val, o, f"{label}[{key.value!r}]"))
+                elif isinstance(o, ast.Call) and isinstance(o.func, ast.Name) and o.func.id == "dict":
+                    for k in o.keywords:
+                        if k.arg in names:
+                            sites.append((k.arg, k.value, o, f"{label}[{k.arg!r}]"))
+                        elif k.arg is None:
+                            entries(k.value, depth + 1)
+                    for a in o.args:
+                        entries(a, depth + 1)
+                elif isinstance(o, ast.IfExp) or isinstance(o, ast.BoolOp):
+                    continue
+                else:
+                    continue
+                stores_into(lambda x, o=o: any(y is o for y in fl.origins(x)), depth + 1)
+
+        def stores_into(is_it, depth=0, fl=fl, v=v, sites=sites, label=label):
+            for n in ast.walk(v.node):
+                if isinstance(n, ast.Assign):
+                    for t in n.targets:
+                        if isinstance(t, ast.Subscript) and isinstance(t.slice, ast.Constant) and t.slice.value in names and is_it(t.value):
+                            sites.append((t.slice.value, n.value, n, f"{label}[{t.slice.value!r}]"))
+                elif isinstance(n, ast.Call) and isinstance(n.func, ast.Attribute) and is_it(n.func.value):
+                    if n.func.attr == "update":
+                        for k in n.keywords:
+                            if k.arg in names:
+                                sites.append((k.arg, k.value, n, f"{label}[{k.arg!r}]"))
+                            elif k.arg is None:
+                                entries(k.value, depth + 1)
+                        for a in n.args:
+                            entries(a, depth + 1)
+                    elif n.func.attr == "setdefault" and len(n.args) == 2 and isinstance(n.args[0], ast.Constant) and n.args[0].value in names:
+                        sites.append((n.args[0].value, n.args[1], n, f"{label}[{n.args[0].value!r}]"))
+
         for n in ast.walk(v.node):
             if not isinstance(n, ast.Call):
                 continue
@@ -104,21 +154,10 @@ def rule_override(ctx, _flow) -> RuleResult:
                     for k in n.keywords:
                         if k.arg in names:
                             sites.append((k.arg, k.value, n, f"{nm}(.., {k.arg}=..)"))
-            elif kw is not None and isinstance(n.func, ast.Attribute) and n.func.attr == "update" and fl.is_param(n.func.value, kw):
-                for k in n.keywords:
-                    if k.arg in names:
-                        sites.append((k.arg, k.value, n, f"**{kw}[{k.arg!r}]"))
-                for a in n.args:
-                    if isinstance(a, ast.Dict):
-                        for key, val in zip(a.keys, a.values):
-                            if isinstance(key, ast.Constant) and key.value in names:
-                                sites.append((key.value, val, n, f"**{kw}[{key.value!r}]"))
+                        elif k.arg is None and not (kw is not None and fl.is_param(k.value, kw) and isinstance(k.value, ast.Name) and k.value.id == kw):
+                            entries(k.value)  # **<a mapping built here> (the function's own **kwargs is handled below)
         if kw is not None:
-            for n in ast.walk(v.node):
-                if isinstance(n, ast.Assign):
-                    for t in n.targets:
-                        if isinstance(t, ast.Subscript) and isinstance(t.slice, ast.Constant) and t.slice.value in names and fl.is_param(t.value, kw):
-                            sites.append((t.slice.value, n.value, n, f"**{kw}[{t.slice.value!r}]"))
+            stores_into(lambda x: fl.is_param(x, kw))
         par = parents(v.node)
         for attr, val, node, what in sites:
             consts = [o for o in fl.origins_at(val, skip_none=False) if isinstance(o, ast.Constant)]
@@ -454,7 +493,8 @@ def rule_named_children(ctx, _flow) -> RuleResult:
             for t in [x for st in filters for x in ast.walk(st) if isinstance(x, ast.Compare) and len(x.ops) == 1]:
                 left, right = t.left, t.comparators[0]
                 names_side = next((b for a, b in ((left, right), (right, left))
-                                   if any(isinstance(o, ast.Attribute) and o.attr == "name" and isinstance(o.value, ast.Name) and o.value.id == var for o in fl.origins_at(a))), None)
+                                   if any(isinstance(o, ast.Attribute) and o.attr == "name" and any(isinstance(r, ast.Name) and r.id == var for r in fl.origins_at(o.value))
+                                          for o in fl.origins_at(a))), None)
                 if names_side is None or not isinstance(t.ops[0], (ast.In, ast.NotIn, ast.Eq, ast.NotEq)):
                     continue
                 consts = {names_side.value} if isinstance(names_side, ast.Constant) else certain_strings(names_side, p, fn.module, fn.cls, fl)
@@ -463,7 +503,12 @@ def rule_named_children(ctx, _flow) -> RuleResult:
                     continue
                 # does the test decide that the child is left out?  (guards a `continue`, or the copy call sits in the other branch)
                 if not isinstance(lp, ast.comprehension) and par_if(v.node, t) is None:
-                    continue
+                    # the outcome of the test held in a local (the result of an expanded helper) that decides a branch of the loop
+                    held = {tg.id for st in ast.walk(lp) if isinstance(st, ast.Assign) and any(x is t for x in ast.walk(st.value)) for tg in st.targets if isinstance(tg, ast.Name)}
+                    decides = any(isinstance(n2, ast.If) and any(isinstance(x, ast.Name) and (x.id in held or any(isinstance(o, ast.Name) and o.id in held for o in fl.origins(x)))
+                                                                 for x in ast.walk(n2.test)) for st in lp.body for n2 in ast.walk(st))
+                    if not decides:
+                        continue
                 own = set()
                 for c in fn.cls.mro:
                     if isinstance(c, str):
@@ -471,7 +516,7 @@ def rule_named_children(ctx, _flow) -> RuleResult:
                     for m in list(c.methods.values()) + [x for pr in c.props.values() for x in (pr.getter, pr.setter) if x is not None]:
                         if m.name == fn.name or m.name.startswith("copy"):
                             continue
-                        own |= {x.value for x in ast.walk(m.node) if isinstance(x, ast.Constant) and isinstance(x.value, str)}
+                        own |= _given_names(ctx, m)
                 foreign = sorted(consts - own)
                 ok = not foreign
                 res.inst(f"{fn.qualname}:{t.lineno} children left out by name {sorted(consts)}: names of the class's own link data: {ok}", nontrivial=True, ok=ok)
@@ -480,6 +525,24 @@ def rule_named_children(ctx, _flow) -> RuleResult:
                              f"{fn.cls.name} does not define data of that name itself (only some subclasses do): for every other {fn.cls.name} a child that happens to be "
                              "called so is silently missing from the copy")
     return res
+
+
+def _given_names(ctx, m) -> set:
+    """string constants a method USES as a name (creates / looks up / labels something with it) — not the ones it merely compares a
+    name against: a skip list moved into a helper of the class does not make the names the class's own"""
+    key = ("c12.given", id(m.node))
+    if key not in ctx.cache:
+        par = parents(m.node)
+        out = set()
+        for x in ast.walk(m.node):
+            if isinstance(x, ast.Constant) and isinstance(x.value, str):
+                up = par.get(x)
+                while isinstance(up, (ast.List, ast.Tuple, ast.Set)):
+                    up = par.get(up)
+                if not isinstance(up, ast.Compare):
+                    out.add(x.value)
+        ctx.cache[key] = out
+    return ctx.cache[key]
 
 
 def par_if(root, test):
